@@ -105,7 +105,7 @@ impl KeyboardLayout for DVP104Key {
                 if modifiers.is_shifted() {
                     DecodedKey::Unicode('`')
                 } else {
-                    DecodedKey::Unicode('=')
+                    DecodedKey::Unicode('#')
                 }
             }
             KeyCode::Backspace => DecodedKey::Unicode(0x08.into()),
